@@ -16,7 +16,7 @@ ID = 'C19'
 
 BOUNDS = {
     'quick': dict(HORIZON=5, MAXLIST=3, FULLBITS=4),
-    'thorough': dict(HORIZON=8, MAXLIST=4, FULLBITS=6),
+    'thorough': dict(HORIZON=7, MAXLIST=4, FULLBITS=6),
 }
 
 FLOATS = [0.0, 5e-324, 0.5, 1 - 2 ** -53, 0.1, 2 ** -53]
@@ -151,8 +151,8 @@ def work(task):
     kind = task[0]
     b = task[-1]
     if kind == 'range':
-        _, a, bb, _b = task
-        for label, text, names in numeric_variants(a, bb):
+        _, a, bb, vi, _b = task
+        for label, text, names in numeric_variants(a, bb)[vi:vi + 1]:
             seen = set()
 
             def on_exec(prefix, src, out, a=a, bb=bb, text=text, label=label, seen=seen):
@@ -264,10 +264,12 @@ def main(tier, seed, t0):
     tasks = [('unit', b)]
     for a in range(-3, 5):
         for bb in range(a, 5):
-            tasks.append(('range', a, bb, b))
+            for vi in range(6):
+                tasks.append(('range', a, bb, vi, b))
     for a, bb in [(-10 ** 6, 10 ** 6), (0, 2 ** 64), (10 ** 28 + 1, 10 ** 28 + 1), (10 ** 30 - 3, 10 ** 30 - 1), (-10 ** 29 - 1, -10 ** 29 + 1),
                   (0, 10 ** 28), (10 ** 27, 10 ** 28 + 5), (7, 7), (-1, 100), (2 ** 63 - 1, 2 ** 63 + 1)]:
-        tasks.append(('range', a, bb, b))
+        for vi in range(6):
+            tasks.append(('range', a, bb, vi, b))
     elems = [1, 2, 1, 3]
     for n in range(0, b['MAXLIST'] + 1):
         tasks.append(('list', elems[:n], b))
